@@ -147,6 +147,7 @@ fn run(w: &str) -> i32 {
         "pairid" => { match bisync_w::pair_id_injective() { Some(x) => { println!("REPRODUCED: {x}"); 1 } None => { println!("not reproduced"); 0 } } }
         "header" => proto_w::run_header(w),
         "codec" => proto_w::run_codec(w),
+        "codec-rt" => proto_w::run_codec_rt(w),
         "pair" => engine_w::run_pair(w),
         "siggen" => engine_w::run_siggen(w),
         "sigtable" => {
@@ -156,6 +157,7 @@ fn run(w: &str) -> i32 {
             rc
         }
         "reconcile" => plan_w::run_reconcile(w),
+        "reconcile-awk" => plan_w::run_reconcile_awk(w),
         "build_plan" => plan_w::run_plan(w),
         "is_excluded" => twins::run_is_excluded(w),
         "parse_meta" => twins::run_parse_meta(w),
